@@ -230,12 +230,14 @@ where
     // We accumulate all validity checks into single branches at the end in order to
     // keep the loop itself branchless.
     let mut laps_or_zeros = 0usize;
+    let mut num_explicit_probabilities = 0usize;
     let mut accum = Probability::zero();
 
     for probability in probabilities {
         let old_accum = accum;
         accum = accum.wrapping_add(probability.borrow());
         laps_or_zeros += (accum <= old_accum) as usize;
+        num_explicit_probabilities = num_explicit_probabilities.wrapping_add(1);
         let symbol = symbols.next().ok_or(())?;
         operation(symbol, old_accum, *probability.borrow())?;
     }
@@ -245,13 +247,22 @@ where
     if infer_last_probability {
         // `total` wraps to zero if `PRECISION == Probability::BITS`. In this case, any sum that
         // didn't wrap around is smaller than the true total `2^PRECISION`.
-        if (PRECISION != Probability::BITS && accum >= total) || laps_or_zeros != 0 {
+        if (PRECISION != Probability::BITS && accum >= total)
+            || laps_or_zeros != 0
+            || num_explicit_probabilities == 0
+        {
+            // (An empty list of explicit probabilities would put all mass on the inferred symbol.)
             return Err(());
         }
         let symbol = symbols.next().ok_or(())?;
         let probability = total.wrapping_sub(&accum);
         operation(symbol, accum, probability)?;
-    } else if accum != total || laps_or_zeros != (PRECISION == Probability::BITS) as usize {
+    } else if accum != total
+        || laps_or_zeros != (PRECISION == Probability::BITS) as usize
+        || num_explicit_probabilities < 2
+    {
+        // (A single entry would either carry the entire probability mass or, for
+        // `PRECISION == Probability::BITS`, be a zero that is indistinguishable from a wrap.)
         return Err(());
     }
 
